@@ -75,7 +75,16 @@ def obs (g : Graph) : String :=
     match getEdge g a b none with
     | .ok r => r.ty.text
     | .error _ => "..")
-  " ".intercalate ([nodesS, edgesS, metaS] ++ perNode ++ [io] ++ byType ++ [nd, pairs, x])
+  -- typed forms of the queries and the list-argument form of get_nodes
+  let q := "Q:" ++ String.join (names.flatMap fun a => names.map fun b =>
+    if edgeExists g a b (some .directed) then "d" else if edgeExists g a b (some .undirected) then "u" else ".")
+  let ty := names.map fun n =>
+    "Y" ++ hexEnc n ++ "=" ++ encKeys ((getEdges g none (some n) (some .directed)).map (·.1)) ++ "/"
+      ++ encKeys ((getEdges g (some n) none (some .bidirected)).map (·.1))
+  let nl := "L:" ++ (match getNodesL g names.reverse with
+    | .ok l => encIds (l.map (·.1))
+    | .error e => "!" ++ e.text)
+  " ".intercalate ([nodesS, edgesS, metaS] ++ perNode ++ [io] ++ byType ++ [nd, pairs, x, q] ++ ty ++ [nl])
 
 def tsObs (g : Graph) : String :=
   let lags := sortDedupInt (lagsOf g)
